@@ -38,6 +38,9 @@ SYNTAX = {
     'decorators': "@name\na: /\\w+/ ;\n\n@nomemo\n@nostak\nb: 'x' ;\n\n@isname\nc: /\\w+/ ;\n",
     'directives': ("@@grammar :: G\n@@whitespace :: /[ ]+/\n@@nameguard :: False\n@@namechars :: '-'\n@@ignorecase :: True\n@@left_recursion :: False\n"
                    "@@parseinfo :: True\n@@comments :: /\\(\\*.*?\\*\\)/\n@@eol_comments :: /#.*$/\n@@keyword :: if else 'end' \"fi\"\n@@keyword :: None True 1\n\na: 'x' ;\n"),
+    # a keyword list without parentheses ends where a rule begins, whichever way the rule is written
+    'keywords-then-equals-rule': "@@keyword :: if else\nstart = b $ ;\n\nb = 'y' ;\n",
+    'keywords-then-each-definition': "@@keyword :: if\na = 'x' ;\n@@keyword :: else\nb : 'y' ;\n@@keyword :: end\nc ::= 'z' ;\n@@keyword :: fi\nd := 'w' ;\n@@keyword :: x\ng::T = 't' ;\n",
     'keywords-parenthesised': "@@keyword :: (if else 'end')\n@@keyword :: ( \"fi\" )\n\na[T]: 'x' ;\n",
     # line ends other than LF, with rules ended by blank lines, dedents and semicolons
     'crlf-blank-ends': "a: 'x'\r\n\r\nb: 'y'\r\n\r\nc: a b\r\n",
